@@ -105,12 +105,47 @@ def via_cases(ctx, prop, n, faulty=True, throttled=False):
     return out
 
 
+def wide_cases(ctx, prop, count):
+    """parameter sweeps: one or two hundred independent scheduled steps in flight at once, then a failing
+    status query, a cancel request, time-outs and a drain - whatever holds for eight jobs holds for 257"""
+    rng = ctx.rng
+    out = []
+    for k in range(count):
+        n = rng.choice([101, 130, 257, 300]) if k else 257
+        restart = [1 if rng.random() < 0.3 else 0 for _ in range(n)]
+        scn = {"n": n, "edges": [[0, i] for i in range(1, n + 1)], "sched": [1] * n, "restart": restart,
+               "rlimit": 1, "throttle": rng.choice([0, 0, n + 5]), "attempts": 1, "dry": 0, "subs": []}
+        every = list(range(1, n + 1))
+        some = [i for i in every if rng.random() < 0.5]
+        ops = [{"op": "poll", "code": "OK", "reports": []},
+               {"op": "poll", "code": "OK", "reports": [[i, "RUNNING"] for i in some]},
+               {"op": "poll", "code": "ERROR", "reports": [[i, rng.choice(["FINISHED", "FAILED", "RUNNING"])] for i in every]},
+               {"op": "poll", "code": "OK", "reports": [[i, "TIMEDOUT"] for i in some[:7]] + [[i, "FINISHED"] for i in some[7:40]]}]
+        if k % 2 == 0:
+            ops += [{"op": "cancel", "rc": rng.choice(["OK", "ERROR"])},
+                    {"op": "poll", "code": "OK", "reports": [[i, "CANCELLED"] for i in every]},
+                    {"op": "poll", "code": "OK", "reports": [[i, "CANCELLED"] for i in every]}]
+        else:
+            ops += [{"op": "poll", "code": "NOJOBS", "reports": [[i, "FAILED"] for i in every]},
+                    {"op": "poll", "code": "OK", "reports": [[i, "FINISHED"] for i in every]},
+                    {"op": "poll", "code": "OK", "reports": [[i, "FINISHED"] for i in every]}]
+        c = run_one(ctx, prop, scn, ops=ops)
+        # the monitors judge these runs; the Lean model is not asked (its list-based bookkeeping is
+        # quadratic and worse in the number of steps: minutes for one such scenario)
+        c.lines, c.impl_out = [], []
+        c.data["kind"] = "wide"
+        out.append(c)
+        ctx.count("wide-scenarios")
+    return out
+
+
 def run(ctx, prop, escalated=False, finish=True):
     quick = ctx.tier == "quick" and not escalated
     n_random = 2500 if quick else 40000
     cases = []
     for item in load_corpus():
         cases.append(run_one(ctx, prop, item["scenario"], ops=item["ops"]))
+    cases.extend(wide_cases(ctx, prop, 2 if quick else 12))
     for _ in range(n_random):
         scn = E.gen_scenario(ctx.rng, maxn=8 if quick else 10)
         cases.append(run_one(ctx, prop, scn, rng=ctx.rng))
